@@ -65,6 +65,14 @@ CHECKS = {
    technique='bounded-exhaustive enumeration of manifests through containerd ChildrenHandler and both label handlers, then every label subset removed / corrupted, checked against the manifest',
    text='n=0..5 layers and label-limit boundary sizes x repeated digests x 11 URL menus x media types x both handlers x prefetch sizes; labels validated with containerd labels.Validate; reconstructed ref/digest/URLs/neighbour prefix/prefetch size compared with the manifest; every subset of emitted labels removed and each corrupted from a menu.',
    note='oracle compares with the manifest, not with the labels; service.sources and fs.neighboringLayers reached through in-package exports'),
+ 'C16': dict(level='model_checking', design='3/C16',
+   technique='explicit-state BFS (canonical-state dedup, symmetry reduction) over lookup/use/release histories of the real store LayerManager and its FUSE handlers over an in-memory registry, with registry faults as deviations, against a reference use-count model',
+   text='All histories up to depth 5 (FUSE handlers) / 4 (API) over 40 ops {lookup diff|blob|info, use, release} x 2 images x {real TOC digests, the other image\'s digest, bogus digest}, plus depth-3 histories with one failing registry request at every position; oracle: lookup succeeds iff the TOC digest belongs to a verified layer of the image (independent of history), counts never negative, layers with uses never released, bookkeeping dropped at zero and a later lookup resolves again.',
+   note='lib/memreg serves manifests/configs/blobs; handlers driven through go-fuse\'s raw bridge without a mount; sequential histories only (lookups racing on one image are not explored)'),
+ 'C19': dict(level='model_checking', design='3/C19',
+   technique='bounded-exhaustive enumeration of source layers x converters x options and of interrupt positions (retry) on a real content store with the oracle recomputed from the store; stateless schedule exploration (statement-level scheduling points, concurrent-map-access model) of parallel layer conversions by one converter instance',
+   text='36 sources x 4 converters x option sets; every content-writer Write position interrupted then retried; 2-3 layers converted in parallel + finalize under all schedules with <=1 (quick) / <=2 (thorough) preemptions; descriptor digest/size, TOC digest annotation verified through the mount path (metadata reader + fs/reader VerifyTOC + file reads), uncompressed size/label, media type, lossless DiffID, TOC manifest mapping every converted layer.',
+   note='estargz.Build and the content store run un-instrumented (private to one conversion); scheduling points before every statement of the three converter files; pigz/igzip disabled'),
 }
 
 NOT_YET = 'check not built yet in this session (work in progress; see DESIGN.md section 3)'
